@@ -138,10 +138,24 @@ def regenerated(g):
     return REGENERATED.get(last(g.fn), {}).get(g.kind)
 
 
-def droppable(g):
+def droppable(g, w=None):
     for (c, l, kinds, why) in DROPPABLE:
         if last(g.fn) == c and last(g.loop[0]) == l and g.kind in kinds:
             return why
+    # a flattening loop moved into a helper of the converter (`flatten_import_items(part) -> Vec<&SyntaxNode>`): the wrapper node is replaced by its
+    # children there - accepted when that function hands `children()` of a node to `extend` (the evidence the table entry stands for)
+    if w is not None:
+        for (c, l, kinds, why) in DROPPABLE:
+            if 'flattening loop' in why and last(g.fn) == c and g.kind in kinds and last(g.loop[0]) != l:
+                from mirfacts import callee_path
+                from paths import BodyView
+                fb = [b for b in w.fn_bodies(w.core) if b.short == g.loop[0]]
+                for b in fb:
+                    v = BodyView(w, b)
+                    for bi, t in b.calls():
+                        if re.search(r'::extend$', callee_path(t) or '') and len(t['args']) > 1:
+                            if any(o[0] == 'call' and (callee_path(v.pv.call_term(o)) or '').endswith('SyntaxNode::children') for o in v.pv.peel(v.pv.origins_operand(t['args'][1]))):
+                                return why + ' [the loop sits in %s, which extends the list with the children of the wrapper]' % last(g.loop[0])
     return None
 
 
